@@ -6,6 +6,7 @@ CONSTANTS
   Hard = 1
   MaxOps = 1000
   MaxPokes = 1000
+  AllowBad = TRUE
   AllowOrphan = TRUE
 SPECIFICATION TSpec
 INVARIANT Report
